@@ -31,7 +31,7 @@ EXPECTED = {
         "thresholds = self.get_thresholds()",
         "if x.ndim == 3:\n    x = x.unsqueeze(1)",
         "thresholds = thresholds.view(1, -1, 1, 1)",
-        "if self._frozen:\n    outputs = (x > thresholds).float()\nelse:\n    outputs = torch.tanh(self.slope * (x - thresholds))\n    outputs = (outputs + 1.0) / 2.0",
+        "if self._frozen:\n    outputs = (x > thresholds).to(torch.result_type(x, thresholds))\nelse:\n    outputs = torch.tanh(self.slope * (x - thresholds))\n    outputs = (outputs + 1.0) / 2.0",
         "return outputs",
     ],
 }
